@@ -500,10 +500,28 @@ Definition expected_skeleton : list (string * list string) := [
   ("ExpFlow.inverse",
    ["call:shallow_copy(self)";
     "aug:copy.scaleMult=-1";
-    "return:copy"])].
+    "return:copy"]);
+  ("GenericSpatialTransform.inverse",
+   ["call:super().inverse(link=link, update_buffers=update_buffers)";
+    "if:link";
+    "set:inv.params=self";
+    "endif";
+    "return:inv"]);
+  ("GenericSpatialTransform.update",
+   ["if:self.params is not None";
+    "call:self._data()";
+    "for:(k, p) in params.items()";
+    "call:transform.data_(p)";
+    "endfor";
+    "endif";
+    "call:super().update()";
+    "return:self"])].
 
 Lemma skeleton_unchanged : gen_skeleton = expected_skeleton.
 Proof. reflexivity. Qed.
 
 Lemma gen_cfg_all : cfg_all gen_cfg = true.
+Proof. vm_compute. reflexivity. Qed.
+
+Lemma generic_inverse_ok : gen_generic_inverse_ok = true.
 Proof. vm_compute. reflexivity. Qed.
